@@ -24,16 +24,17 @@ type zzC06Note struct {
 }
 
 type zzC06 struct {
-	s        *Store[uint64, uint64]
-	origin   int64
-	now      int64 // ns since cache start (symbolic)
-	capv     int64
-	model    [3]zzC06Ent // keys 1,2
-	rejected [3]bool
-	pressure bool
-	notes    []zzC06Note
-	nextVal  uint64
-	door     bool
+	s          *Store[uint64, uint64]
+	origin     int64
+	now        int64 // ns since cache start (symbolic)
+	capv       int64
+	model      [3]zzC06Ent // keys 1,2
+	rejected   [3]bool
+	pressure   bool
+	notes      []zzC06Note
+	nextVal    uint64
+	door       bool
+	lastCostFn int64
 }
 
 func zzC06New() *zzC06 {
@@ -50,6 +51,7 @@ func zzC06New() *zzC06 {
 			c := vfI64("costfn")
 			vfAssume(c >= 1)
 			vfAssume(c <= h.capv+2)
+			h.lastCostFn = c
 			return c
 		},
 		Listener: func(k, v uint64, r RemoveReason) {
@@ -279,7 +281,7 @@ func ZZ_C06_Loader() {
 	s := h.s
 	ls := NewLoadingStore(s)
 	lc := vfI64("loaderCost")
-	vfAssume(lc >= 1)
+	vfAssume(lc >= 0) // 0 = the cost function decides
 	vfAssume(lc <= h.capv+5)
 	ls.Loader(func(ctx context.Context, key uint64) (Loaded[uint64], error) {
 		return Loaded[uint64]{Value: 500 + key, Cost: lc}, nil
@@ -293,13 +295,22 @@ func ZZ_C06_Loader() {
 	vfReach("loaded")
 	shard := s.shards[zzIndex(s, 2)]
 	ent, present := shard.hashmap[2]
-	vfNote("loaderOversize", vfIte64(lc > h.capv, 1, 0))
+	eff := lc
+	if lc == 0 {
+		eff = h.lastCostFn // what the cost function answered for the loaded value
+	}
+	vfNote("loaderOversize", vfIte64(eff > h.capv, 1, 0))
 	if present {
 		vfAssert("oversize-loader-value-not-resident", ent.weight.Load() <= h.capv)
+		vfAssert("loaded-cost-is-effective-cost", ent.weight.Load() == eff)
 	}
+	vfAssert("loaded-value-within-max-size-is-stored", vfImplies(eff <= h.capv, present))
 	for _, n := range h.notes {
 		if n.key == 1 && n.reason == EVICTED {
-			vfAssert("oversize-loader-value-displaces-nothing", vfAnd(lc <= h.capv, lc+1 > h.capv))
+			vfAssert("oversize-loader-value-displaces-nothing", vfAnd(eff <= h.capv, eff+1 > h.capv))
+		}
+		if n.key == 2 {
+			vfAssert("oversize-loader-value-never-notified", eff <= h.capv)
 		}
 	}
 	var total int64
